@@ -270,3 +270,93 @@ Proof.
   - now rewrite map_map.
   - now rewrite map_map.
 Qed.
+
+(* ---------------------------------------------------------------------------------------- *)
+(* ONE LIBRARY *)
+Definition prev_ok (prev : list nvlib) : Prop :=
+  (forall L, In L prev -> ident_w (li_ident L) = true) /\
+  (forall L C, In L prev -> In C (li_cells L) -> cell_ok C).
+
+Lemma cell_w_ok prev lib done c : cell_w prev lib done c = true -> cell_ok c.
+Proof.
+  unfold cell_w. intros Hw.
+  repeat match type of Hw with _ && _ = true => let H := fresh "Hc" in apply andb_true_iff in Hw as [Hw H] end.
+  unfold elem_w in Hw. apply andb_true_iff in Hw as [Hi _]. split; auto.
+Qed.
+
+Lemma cells_loop libs prev Lc after : forall todo done xs,
+  libs = prev ++ Lc :: after -> uniq_ci (map li_ident libs) = true -> prev_ok prev ->
+  ident_w (li_ident Lc) = true -> li_cells Lc = done ++ todo -> (forall C, In C done -> cell_ok C) ->
+  cells_w prev (li_ident Lc) done todo = true ->
+  uniq_ci (map ce_ident (done ++ todo)) = true -> uniq_x (map ce_name (done ++ todo)) = true ->
+  emap (cell_sexp [] libs (li_ident Lc)) todo = EmOk xs ->
+  loop (lib_step (map norm_lib prev) (li_ident Lc)) false (false, map norm_cell done) xs =
+  Ok (false, map norm_cell (done ++ todo)).
+Proof.
+  induction todo as [|c todo IH]; intros done xs Hlibs Hu Hprev Hlib Hcells Hdone Hw Hui Hun Hx.
+  - inversion Hx. now rewrite app_nil_r.
+  - cbn [emap] in Hx. destruct (cell_sexp [] libs (li_ident Lc) c) as [x| |] eqn:Ec; try discriminate.
+    destruct (emap (cell_sexp [] libs (li_ident Lc)) todo) as [xs'| |] eqn:Ecs; try discriminate.
+    inversion Hx. subst xs. cbn [cells_w] in Hw. apply andb_true_iff in Hw as [Hwc Hws].
+    assert (E : env libs prev (li_ident Lc) done).
+    { destruct Hprev as [Hp1 Hp2]. constructor; auto. exists Lc, after, (c :: todo). auto. }
+    rewrite map_app in Hui, Hun. cbn [map] in Hui, Hun.
+    destruct (cell_w_roundtrip libs prev (li_ident Lc) done c x E Hwc) as (args & -> & Hp); auto.
+    { exact (uniq_ci_mid _ _ _ Hui). }
+    { exact (uniq_x_mid _ _ _ Hun). }
+    unfold KW. cbn [loop]. unfold lib_step at 1.
+    replace (kweq (lower (K "Cell")) "status") with false by (vm_compute; reflexivity).
+    replace (kweq (lower (K "Cell")) "cell") with true by (vm_compute; reflexivity).
+    cbn [fst snd]. rewrite Hp.
+    replace (map norm_cell done ++ [norm_cell c]) with (map norm_cell (done ++ [c])) by (now rewrite map_app).
+    replace (done ++ c :: todo) with ((done ++ [c]) ++ todo) by (now rewrite <- app_assoc).
+    apply IH; auto.
+    + now rewrite <- app_assoc.
+    + intros C HC. apply in_app_or in HC as [HC|[<-|[]]]; auto. eapply cell_w_ok; eauto.
+    + rewrite <- app_assoc. cbn [app]. now rewrite map_app.
+    + rewrite <- app_assoc. cbn [app]. now rewrite map_app.
+Qed.
+
+Lemma cells_w_ok prev lib : forall todo done, cells_w prev lib done todo = true -> forall C, In C todo -> cell_ok C.
+Proof.
+  induction todo as [|c todo IH]; intros done H C HC; [destruct HC|].
+  cbn [cells_w] in H. apply andb_true_iff in H as [Hc Hs]. destruct HC as [<-|HC]; [eapply cell_w_ok; eauto|eauto].
+Qed.
+
+Lemma norm_lib_idents prev : map li_ident (map norm_lib prev) = map li_ident prev.
+Proof. rewrite map_map. apply map_ext. reflexivity. Qed.
+Lemma norm_lib_names prev : map li_name (map norm_lib prev) = map li_name prev.
+Proof. rewrite map_map. apply map_ext. reflexivity. Qed.
+
+Theorem lib_w_roundtrip libs prev Lc after x :
+  libs = prev ++ Lc :: after -> uniq_ci (map li_ident libs) = true -> prev_ok prev ->
+  lib_w prev Lc = true ->
+  ident_taken (li_ident Lc) (map li_ident prev) = false -> name_taken (li_name Lc) (map li_name prev) = false ->
+  lib_sexp [] libs Lc = EmOk x ->
+  exists args, x = SList (KW "Library" :: args) /\ parse_library (map norm_lib prev) args = Ok (norm_lib Lc).
+Proof.
+  intros Hlibs Hu Hprev Hw Hti Htn Hx. unfold lib_w in Hw.
+  apply andb_true_iff in Hw as [Hw Hcn]. apply andb_true_iff in Hw as [Hw Hci]. apply andb_true_iff in Hw as [Hel Hcw].
+  unfold elem_w in Hel. apply andb_true_iff in Hel as [Hi Ht].
+  unfold lib_sexp in Hx. rewrite Hci in Hx. cbn [negb] in Hx.
+  destruct (name_sexp (li_ident Lc) (li_name Lc)) as [nx| |] eqn:En; try discriminate.
+  destruct (emap (cell_sexp [] libs (li_ident Lc)) (li_cells Lc)) as [cxs| |] eqn:Ecs; try discriminate.
+  inversion Hx. subst x. clear Hx. cbn [app]. eexists. split; [reflexivity|].
+  destruct (elemname_roundtrip _ _ _ Hi Ht En) as (n & Hn & Hn1 & Hn2).
+  unfold parse_library. rewrite Hn.
+  replace (chk_int_form "ediflevel" 1 (SList [KW "edifLevel"; KW "0"])) with (@Ok unit tt) by (vm_compute; reflexivity).
+  replace (chk_technology (SList [KW "technology"; SList [KW "numberDefinition"]])) with (@Ok unit tt)
+    by (vm_compute; reflexivity).
+  rewrite Hn1.
+  change (@nil nvcell) with (map norm_cell []).
+  rewrite (cells_loop libs prev Lc after (li_cells Lc) [] cxs Hlibs Hu Hprev Hi eq_refl); auto.
+  - cbn [app snd]. unfold place_strict. rewrite Hn1, Hn2, norm_lib_idents, norm_lib_names, Hti, Htn. reflexivity.
+  - intros C [].
+Qed.
+
+Lemma lib_w_ok prev L : lib_w prev L = true -> ident_w (li_ident L) = true /\ forall C, In C (li_cells L) -> cell_ok C.
+Proof.
+  unfold lib_w. intros Hw.
+  apply andb_true_iff in Hw as [Hw _]. apply andb_true_iff in Hw as [Hw _]. apply andb_true_iff in Hw as [Hel Hcw].
+  unfold elem_w in Hel. apply andb_true_iff in Hel as [Hi _]. split; auto. eapply cells_w_ok; eauto.
+Qed.
